@@ -91,3 +91,41 @@ def impl_canon_loads(text, reset=True):
     if r[0] == "ok":
         return canon.canon_program(r[1]), r[1]
     return canon.classify_exception(r[1]), r[1]
+
+
+def real_tokens(text):
+    """token stream of the shipped Python lexer: [(type name, text, line, column)] without EOF,
+    plus the EOF position"""
+    import antlr4
+    from blackbird.blackbirdLexer import blackbirdLexer
+    lexer = blackbirdLexer(antlr4.InputStream(text))
+    lexer.removeErrorListeners()
+    out = []
+    while True:
+        t = lexer.nextToken()
+        if t.type == antlr4.Token.EOF:
+            return out, (t.line, t.column)
+        name = blackbirdLexer.symbolicNames[t.type] if t.type < len(blackbirdLexer.symbolicNames) else str(t.type)
+        out.append((name, t.text, t.line, t.column))
+
+
+def syntax_stage(text):
+    """lexer + parser + BlackbirdErrorListener exactly as parse() wires them, without the walker:
+    ('ok',) | ('syntax', message) | ('other', exception)"""
+    import antlr4
+    from blackbird.blackbirdLexer import blackbirdLexer
+    from blackbird.blackbirdParser import blackbirdParser
+    from blackbird.error import BlackbirdErrorListener, BlackbirdSyntaxError
+    with quiet():
+        try:
+            lexer = blackbirdLexer(antlr4.InputStream(text))
+            stream = antlr4.CommonTokenStream(lexer)
+            parser = blackbirdParser(stream)
+            parser.removeErrorListeners()
+            parser.addErrorListener(BlackbirdErrorListener())
+            parser.start()
+            return ("ok",)
+        except BlackbirdSyntaxError as e:
+            return ("syntax", str(e.args[0]) if e.args else "")
+        except Exception as e:  # noqa: BLE001
+            return ("other", e)
